@@ -70,6 +70,8 @@ def run_one(m, keep=False, build=True):
                 res["status"] = "detected-as-undecided"
         else:
             res["status"] = "MISSED"
+        if m.get("benign"):
+            res["status"] = "FALSE-ALARM" if fired else "benign-silent"
         res["detail"] = "; ".join(rules)[:300]
         return res
     finally:
@@ -97,7 +99,10 @@ def main():
         for r in ex.map(lambda m: run_one(m, a.keep, not a.nobuild), ms):
             results.append(r)
             print("%-28s %-10s %-22s %s" % (r["id"], r["prop"], r["status"], r.get("detail", "")[:140]))
-    app = [r for r in results if r["status"] not in ("inapplicable", "does-not-compile")]
+    fa = [r["id"] for r in results if r["status"] == "FALSE-ALARM"]
+    if fa:
+        print("FALSE ALARMS on behaviour-preserving edits:", fa)
+    app = [r for r in results if r["status"] not in ("inapplicable", "does-not-compile", "benign-silent", "FALSE-ALARM")]
     det = [r for r in app if r["status"].startswith("detected")]
     print("mutants: %d selected, %d applicable, %d detected, missed: %s" % (len(results), len(app), len(det), [r["id"] for r in app if r["status"] == "MISSED"]))
     if a.write:
